@@ -159,7 +159,8 @@ def gen_solution(rng, kinds=None, hostile=True):
                                                    np.int64(rng.randint(1, 90))])
     if rng.random() < 0.7:
         meta["processor_name"] = rng.choice(["Intel Core i7-8550U CPU @ 1.80GHz", "AMD <Ryzen> & \"co\" 'x'", "x",
-                                             "M1 üß中", "a  b"])
+                                             "M1 üß中", "a  b", "Intel(R) Core(TM) i7-8550U CPU @ 1.80GHz",
+                                             "Intel(R) Xeon(R) Gold 6248R", " leading and trailing blank "])
     dkind = rng.choice(["default", "none", "explicit", "micro", "cleared", "midnight"])
     if dkind == "none":
         meta["date"] = None
